@@ -7,6 +7,7 @@ diagnostic; `asan`, `signal`, `exit-nodiag`, `exit0`, `timeout` are always viola
 with the request as the concrete input.
 """
 import os, random
+from fractions import Fraction
 from common import *
 
 RULE = ("boundary enumeration per guarded entry point (index = size-1, size, size+1, UINT_MAX, 0 on empty; x at, "
@@ -478,14 +479,26 @@ FINDING_PROBES = [
 ]
 
 
+_TRANSLATOR_PROBLEMS = []
+
+
 def pre_build(env):
-    """[T2] translator tie (informational): guard texts of /repo's current sources vs the table the model was written from"""
+    """Translator tie (DESIGN.md §4.5): regenerate lean/LpModel/C10/GeneratedGuards.lean from the guard texts of the
+    tree under check (runs with the lake lock held).  LpProofs/C10/Generated.lean proves every regenerated guard equal
+    to the hand-written model's guard; a guard that can no longer be anchored or parsed keeps its last definition and is
+    reported by `finalize` as a correspondence failure."""
     import importlib.util
     spec = importlib.util.spec_from_file_location("c10_guards", os.path.join(env["verif"], "translators", "guards.py"))
     g = importlib.util.module_from_spec(spec)
     spec.loader.exec_module(g)
-    r = g.extract(env["repo"])
-    return dict(guard_texts_same=len(r["same"]), guard_texts_changed=r["changed"], guard_anchors_missing=r["missing"])
+    r = g.regenerate(env["repo"], os.path.join(env["lean"], "LpModel", "C10", "GeneratedGuards.lean"))
+    _TRANSLATOR_PROBLEMS[:] = r["problems"]
+    return dict(guards_regenerated=r["entries"], constants=r["constants"], generated_rewritten=r["generated_rewritten"],
+                cannot_anchor_or_parse=r["problems"])
+
+
+def finalize(ctx, exe):
+    return [fail("corr", "translator: cannot anchor/parse guard " + p.split(":", 1)[0], p) for p in _TRANSLATOR_PROBLEMS]
 
 
 def compare(rq, impl, model, ctx):
@@ -494,13 +507,124 @@ def compare(rq, impl, model, ctx):
     bump(ctx, "%s %s" % (op, tag(model)))
     if tag(model) in ("ok", "err"):
         ctx["nontrivial"].add(rq)
+    mf = meaningful(rq)
+    if mf is not None and tag(model) in ("ok", "err") and mf != (tag(model) == "ok"):
+        return fs + [fail("corr", "model and the direct predicate of props/c10.py disagree on the meaningfulness of a request", "direct: %s" % mf)]
     if tag(model) == "model-oob":
         return [fail("corr", "model: a meaningful request takes an out-of-range index in the checked-access model", model)]
     return fs
 
 
+def meaningful(rq):
+    """The property's own predicate, evaluated directly on the request (no model): True / False / None (not decided
+    here).  Used as the search oracle when the Lean side does not build, and as a cross-check of the model otherwise."""
+    t = rq.split()
+    op, a = t[0][4:], t[1:]
+    try:
+        n = lambda k: int(a[k])
+        x = lambda k: Fraction(fl(a[k]))
+        if op in ("vec.index", "vec.cindex"):
+            return n(1) < n(0)
+        if op in ("vec.dot", "vec.add", "vec.sub", "vec.addeq", "vec.subeq", "vec.mul"):
+            return n(0) == n(1)
+        if op == "vec.cross":
+            return n(0) == 3 and n(1) == 3
+        if op in ("mat.index", "mat.cindex", "mat.delrow", "mat.row"):
+            return n(2) < n(0)
+        if op in ("mat.delcol", "mat.col"):
+            return n(2) < n(1)
+        if op in ("mat.plus", "mat.minus", "mat.addeq", "mat.subeq", "mat.opplus", "mat.opminus"):
+            return (n(0), n(1)) == (n(2), n(3))
+        if op in ("mat.prod", "mat.opprod"):
+            return n(1) == n(2)
+        if op in ("mat.prodv", "mat.opprodv"):
+            return n(2) == n(1)
+        if op == "mat.vprod":
+            return n(0) == n(1)
+        if op in ("mat.trace", "mat.det"):
+            return n(0) == n(1)
+        if op == "mat.entries":
+            return len(set(a[1:])) <= 1
+        if op == "rot":
+            return n(0) == 2 or (n(0) == 3 and n(1) == 3)
+        if op == "gl":
+            return n(0) == n(1)
+        if op == "factorial":
+            return n(0) <= 170
+        if op == "factorial.hist":
+            return all((int(i[1:]) <= 170) if i[0] == "F" else all(int(v) >= 0 for v in i[1:].split(":")) for i in a[1:])
+        if op == "binom":
+            return n(0) >= 0 and n(1) >= 0
+        if op == "gammaln":
+            return x(0) > 0
+        if op == "gammaq":
+            return x(0) >= 0 and x(1) > 0
+        if op == "invgammap":
+            return x(1) > 0
+        if op == "round":
+            return n(1) <= 7
+        if op in ("vshy", "vshpsi"):
+            return n(0) in (0, 1, 2)
+        if op == "inverf":
+            return -1 < x(0) < 1 + Fraction(1, 10 ** 16)
+        if op in ("pmfbinom", "cdfbinom"):
+            return 0 <= x(1) <= 1
+        if op == "invcdfpoisson":
+            return 0 <= x(1) <= 1
+        if op in ("pmfpoisson", "cdfpoisson"):
+            return x(0) >= 0
+        if op in ("pdfexp", "cdfexp", "pdfmb", "cdfmb"):
+            return x(1) > 0
+        if op in ("llbinned", "lbinned"):
+            return n(1) == n(0) and n(2) in (0, n(0))
+        if op == "metropolis":
+            return n(0) in (0, 2)
+        if op == "metropolis2d":
+            return n(0) in (0, 4)
+        if op == "transpose":
+            return n(0) > 0 and len(set(a[1:])) == 1 or None
+        if op == "transpose2":
+            return n(0) == n(1)
+        if op == "inunits":
+            return all(v == a[-1] for v in a[1:-1])
+        if op == "exporttable":
+            return a[-1] == "0" or all(v == a[-1] for v in a[1:-1])
+        if op == "importlist":
+            return n(0) == 1
+        if op == "importtable":
+            return None if (n(0) == 1 and n(1) == 0) else (n(0) == 1 and (n(3) == 0 or n(3) == n(2)))
+        if op == "checkerr":
+            return n(0) == 0
+        if op == "sublist":
+            return True
+        if op == "integ1":
+            return a[0][2:] in METHODS_1D
+        if op in ("integ2", "integ3", "integ3s"):
+            return a[0][2:] in METHODS_1D + METHODS_MC
+        if op == "integmc":
+            return a[0][2:] in METHODS_MC
+        if op == "integmc.hist":
+            return all(m[2:] in METHODS_MC for m in a[1:])
+    except (ValueError, IndexError):
+        return None
+    return None
+
+
+def oracle_verdict(rq, impl):
+    mf = meaningful(rq)
+    if mf is None or tag(impl) not in ("ok", "err"):
+        return []
+    if mf and tag(impl) == "err":
+        return [fail("prop", "meaningful request terminated the process", "")]
+    if not mf and tag(impl) == "ok":
+        return [fail("prop", "meaningless request did not stop with a diagnostic", impl[:200])]
+    return []
+
+
 def oracle_only(rq, impl, ctx):
-    """Without the model: crashes, sanitizer reports and silent exits are violations by themselves."""
+    """Without the model (the Lean side does not build, e.g. a regenerated guard no longer equals the model's):
+    crashes, sanitizer reports and silent exits are violations by themselves; for the entry points whose
+    meaningfulness is a direct function of the request the property's own predicate is evaluated."""
     if crashed(impl):
         return [fail("prop", "crash/sanitizer/silent exit: " + tag(impl), impl[:200])]
-    return []
+    return oracle_verdict(rq, impl)
